@@ -8,9 +8,11 @@ import Driver.HVal
 import Driver.HNum
 import Driver.HOps
 import Driver.HFunc
+import Driver.HSet
+import Driver.HRefine
 open CtyModel
 
-def handlers : List Handler := [handleTy, handleVal, handleNum, handleOps, handleFunc]
+def handlers : List Handler := [handleTy, handleVal, handleNum, handleOps, handleFunc, handleSet, handleRefine]
 
 def handle (op : String) (args : List Sexp) : String :=
   match handlers.findSome? (fun h => h op args) with
